@@ -766,9 +766,30 @@ def diff():
     new = {s["id"]: s for s in sites}
     sem = translated_texts(conds)
 
+    def strip_not(g):
+        return g[2:-1] if g.startswith("!(") and g.endswith(")") else g
+
+    def within(g):
+        """the guard is a translated condition, or a sub-expression of one (short-circuit prefix)"""
+        g = strip_not(g)
+        return any(g == t or g in t for t in sem)
+
+    def presence_ok(s):
+        """an optional dereference must be dominated by a test of THAT optional's presence"""
+        if s["kind"] != "opt-deref":
+            return True
+        x = s["expr"]
+        x = x[1:] if x.startswith("*") else (x[:-2] if x.endswith("->") else x)
+        x = x.strip()
+        for g in s["guards"]:
+            if g == x or x in [c.strip() for c in g.split("&&")]:
+                return True
+            if g.startswith("!(") and g.endswith(")") and ("!" + x) in [c.strip() for c in g[2:-1].split("||")]:
+                return True
+        return False
+
     def covered(s):
-        gs = [g[2:-1] if g.startswith("!(") else g for g in s["guards"]]
-        return bool(gs) and all(g in sem for g in gs)
+        return bool(s["guards"]) and all(within(g) for g in s["guards"]) and presence_ok(s)
     added = [s for i, s in new.items() if i not in old]
     removed = [s for i, s in old.items() if i not in new]
     changed, rechecked = [], []
